@@ -91,39 +91,44 @@ class MPoly1(MBits):
 
 
 def mix_matrix(ctx, rel, qual):
-    """4x4 coefficient matrix of (Inv)MixColumns read off the xor-of-gmul terms."""
+    """4x4 coefficient matrix of (Inv)MixColumns read off the xor-of-gmul terms (every column must use the same matrix)."""
     sm = ctx.summ(rel, qual)
-    fl = [e for e in flat_effects(sm.effects) if e[0] == 'for']
-    if len(fl) != 1:
-        raise AnalysisError('%s: expected one column loop' % qual)
-    rows = {}
-    for x in T.walk(fl[0]):
-        if x[0] == 'upd':
-            for idx, val in x[2]:
-                items = val[1] if val[0] == '^' else (val,)
-                row = [0, 0, 0, 0]
-                for it in items:
-                    c = 1
-                    v = it
-                    if it[0] == 'call' and it[1] == ('g', 'gmul') and len(it[2]) == 2 and T.is_int(it[2][1]):
-                        v, c = it[2][0], it[2][1][1]
-                    if v[0] == 'idx' and T.is_int(v[2]) and 0 <= v[2][1] < 4:
-                        row[v[2][1]] ^= c
-                    else:
-                        raise AnalysisError('%s: unexpected operand %s' % (qual, T.show(v)))
-                # idx = k + base counter
-                k = None
-                if T.is_int(idx):
-                    k = idx[1]
-                elif idx[0] == '+':
-                    ks = [i[1] for i in idx[1] if T.is_int(i)]
-                    k = ks[0] if ks else 0
+    rows_by_col = {}
+    for x in T.walk(sm.term()):
+        if x[0] != 'upd':
+            continue
+        for idx, val in x[2]:
+            items = val[1] if val[0] == '^' else (val,)
+            row = [0, 0, 0, 0]
+            ok = True
+            for it in items:
+                c = 1
+                v = it
+                if it[0] == 'call' and it[1] == ('g', 'gmul') and len(it[2]) == 2 and T.is_int(it[2][1]):
+                    v, c = it[2][0], it[2][1][1]
+                if v[0] == 'idx' and T.is_int(v[2]) and 0 <= v[2][1] < 4:
+                    row[v[2][1]] ^= c
                 else:
-                    k = 0
-                rows[k % 4] = row
-    if sorted(rows) != [0, 1, 2, 3]:
-        raise AnalysisError('%s: could not read 4 rows' % qual)
-    return [rows[i] for i in range(4)]
+                    ok = False
+            if not ok:
+                continue
+            if T.is_int(idx):
+                k = idx[1]
+            elif idx[0] == '+':
+                ks = [i[1] for i in idx[1] if T.is_int(i)]
+                k = ks[0] if ks else 0
+            else:
+                k = 0
+            rows_by_col.setdefault(k // 4 if T.is_int(idx) else 0, {})[k % 4] = row
+    mats = []
+    for col, rows in rows_by_col.items():
+        if sorted(rows) == [0, 1, 2, 3]:
+            mats.append([rows[i] for i in range(4)])
+    if not mats:
+        raise AnalysisError('%s: could not read the 4 coefficient rows' % qual)
+    if any(m != mats[0] for m in mats):
+        raise AnalysisError('%s: columns are mixed with different matrices' % qual)
+    return mats[0]
 
 
 def run(ctx):
